@@ -94,6 +94,15 @@ def alphabet(thorough):
         if len(s) <= (2 if thorough else 1):
             out.append(["L", s, str(XSD.string), None])
             out.append(["L", s, None, "en"])
+    # the same terms reached through other constructor routes (kind "L:<route>"): term identity is decided on what the term IS (lexical form,
+    # datatype, language), not on how it was built
+    for route, text, dt, lang in [("int", "1", None, None), ("int", "0", None, None), ("int+lang", "1", None, "en"), ("bool+lang", "true", None, "en"), ("float+lang", "2.5", None, "en"),
+                                  ("int+dt", "1", str(XSD.integer), None), ("bool", "false", None, None), ("float", "2.5", None, None), ("decimal", "1.5", None, None),
+                                  ("copy", "x", None, "en"), ("copy", "1", str(XSD.integer), None), ("copy", "", None, None), ("copy+lang", "x", None, "fr"),
+                                  ("bytes", "x", None, None), ("bytes", "", None, None), ("bytes+dt", "true", str(XSD.boolean), None), ("bytes+dt", "1", str(XSD.integer), None),
+                                  ("unnormalized", "01", str(XSD.integer), None), ("unnormalized", "1", str(XSD.boolean), None), ("str-subclass", "http://ex.org/a", None, None),
+                                  ("str-subclass+lang", "a", None, "en")]:
+        out.append(["L:" + route, text, dt, lang])
     # de-duplicate descriptors
     seen = set()
     res = []
@@ -113,6 +122,33 @@ def mk(d):
         return BNode(text)
     if kind == "V":
         return Variable(text)
+    if kind.startswith("L:"):
+        route = kind[2:]
+        D = None if dt is None else URIRef(dt)
+        if route in ("int", "int+lang", "int+dt"):
+            return Literal(int(text), lang=lang, datatype=D)
+        if route in ("bool", "bool+lang"):
+            return Literal(text == "true", lang=lang)
+        if route in ("float", "float+lang"):
+            return Literal(float(text), lang=lang)
+        if route == "decimal":
+            from decimal import Decimal
+            return Literal(Decimal(text))
+        if route == "copy":
+            return Literal(Literal(text, datatype=D, lang=lang))
+        if route == "copy+lang":
+            return Literal(Literal(text), lang=lang)
+        if route == "bytes":
+            return Literal(text.encode("utf-8"))
+        if route == "bytes+dt":
+            return Literal(text.encode("utf-8"), datatype=D)
+        if route == "unnormalized":
+            return Literal(text, datatype=D, normalize=False)
+        if route == "str-subclass":
+            return Literal(URIRef(text))
+        if route == "str-subclass+lang":
+            return Literal(Variable(text), lang=lang)
+        raise ValueError(route)
     return Literal(text, datatype=None if dt is None else URIRef(dt), lang=lang)
 
 
@@ -192,6 +228,10 @@ def single_check(d, graph_check=True):
                 v.append(("%s-changes-term|%s" % (name, kind), {"got": tkey(u)}))
         except Exception as ex:  # noqa: BLE001
             v.append(("%s-raises|%s" % (name, kind), {"exc": repr(ex)}))
+    if d[0] == "L:unnormalized":
+        # a literal built with normalize=False keeps its form; every reader builds literals with the default (NORMALIZE_LITERALS) and replaces the
+        # form by the normal one, by design: the read-back clauses are demanded of terms as the library creates them by default
+        return v
     # n3 text read back
     try:
         n3 = t.n3()
@@ -227,7 +267,7 @@ def single_check(d, graph_check=True):
 
 
 def _char_class(d):
-    if d[0] != "L":
+    if not d[0].startswith("L"):
         return "-"
     s = d[1]
     for ch, name in (("\t", "tab"), ("\r", "cr"), ("\n", "lf"), ("\\", "backslash"), ('"', "dquote"), ("'", "squote")):
@@ -321,8 +361,8 @@ def run(ctx):
         ctx.extend(viols)
         ctx.add("evaluations", n)
     # sorted() of every 3-subset with at most one literal
-    nonlit = [d for d in alpha if d[0] != "L"][:30]
-    lits = [d for d in alpha if d[0] == "L"][:: max(1, len(alpha) // 12)][:12]
+    nonlit = [d for d in alpha if not d[0].startswith("L")][:30]
+    lits = [d for d in alpha if d[0].startswith("L")][:: max(1, len(alpha) // 12)][:12]
     pool = nonlit + lits
     nl = len(nonlit)
     triples = [c for c in itertools.combinations(range(len(pool)), 3) if sum(1 for i in c if i >= nl) <= 1]
